@@ -73,4 +73,88 @@ theorem kill_single_loss_recoverable (a : Fin nd → K) (o : Fin nd → K) (c d 
     have := solve_single a (Function.update o c x) d ha P hP
     rwa [Function.update_of_ne hcd] at this
 
+/-! ### resuming: a sync run again after any interruption re-establishes the full guarantee -/
+
+section Resume
+open Arr
+variable {β : Type} {nd np : ℕ}
+
+/-- a sync pass: the stripes `ps` completed one after the other with the data read for each -/
+def syncPass (gen : (Fin nd → β) → Fin np → β) (zero : β) (s : St β nd np) : List (ℕ × (Fin nd → β)) → St β nd np
+  | [] => s
+  | (pos, data) :: rest => syncPass gen zero (step gen zero s (.syncOk pos data)) rest
+
+/-- every stripe of the pass is completed under the side condition of `syncOk` (recorded blocks re-read unchanged) -/
+def PassPre (gen : (Fin nd → β) → Fin np → β) (zero : β) (s : St β nd np) : List (ℕ × (Fin nd → β)) → Prop
+  | [] => True
+  | (pos, data) :: rest => readsAgree zero s pos data ∧ PassPre gen zero (step gen zero s (.syncOk pos data)) rest
+
+theorem allBlk_syncOk_self (gen : (Fin nd → β) → Fin np → β) (zero : β) (s : St β nd np) (pos : ℕ) (data : Fin nd → β) :
+    allBlk (step gen zero s (.syncOk pos data)) pos := by
+  intro d
+  simp only [step, if_true]
+  cases hd : s.st d pos with
+  | empty => exact Or.inl rfl
+  | blk c => exact Or.inr ⟨c, rfl⟩
+  | pending => exact Or.inr ⟨data d, rfl⟩
+  | deleted => exact Or.inl rfl
+
+theorem allBlk_syncOk_mono (gen : (Fin nd → β) → Fin np → β) (zero : β) (s : St β nd np) (p pos : ℕ) (data : Fin nd → β)
+    (h : allBlk s pos) : allBlk (step gen zero s (.syncOk p data)) pos := by
+  by_cases hp : pos = p
+  · subst hp; exact allBlk_syncOk_self gen zero s pos data
+  · intro d
+    have : (step gen zero s (.syncOk p data)).st d pos = s.st d pos := by simp [step, hp]
+    rw [this]; exact h d
+
+theorem syncPass_allBlk (gen : (Fin nd → β) → Fin np → β) (zero : β) (ps : List (ℕ × (Fin nd → β))) (s : St β nd np) (pos : ℕ)
+    (h : allBlk s pos ∨ pos ∈ ps.map (·.1)) : allBlk (syncPass gen zero s ps) pos := by
+  induction ps generalizing s with
+  | nil =>
+    rcases h with h | h
+    · exact h
+    · simp at h
+  | cons x rest ih =>
+    obtain ⟨p, data⟩ := x
+    simp only [syncPass]
+    apply ih
+    rcases h with h | h
+    · exact Or.inl (allBlk_syncOk_mono gen zero s p pos data h)
+    · simp only [List.map_cons, List.mem_cons] at h
+      rcases h with h | h
+      · subst h; exact Or.inl (allBlk_syncOk_self gen zero s pos data)
+      · exact Or.inr h
+
+theorem syncPass_inv (gen : (Fin nd → β) → Fin np → β) (zero : β) (ps : List (ℕ × (Fin nd → β))) (s : St β nd np)
+    (hinv : Inv gen zero s) (hpre : PassPre gen zero s ps) : Inv gen zero (syncPass gen zero s ps) := by
+  induction ps generalizing s with
+  | nil => exact hinv
+  | cons x rest ih =>
+    obtain ⟨p, data⟩ := x
+    exact ih _ (C06.inv_step gen zero s (.syncOk p data) hinv hpre.1) hpre.2
+
+/-- **resume**: from ANY state in which the C06 invariant holds — in particular every state
+    reachable through interrupted syncs, where parity of some stripes was written and the content
+    never saved (`Op.parityOnly`), `C06.inv_reachable` — a sync pass that completes every stripe
+    that is not yet fully synced ends with EVERY stripe recorded as synced and with parity equal to
+    the generator applied to the recorded contents in every level: the full guarantee is back. -/
+theorem resume_reaches_clean (gen : (Fin nd → β) → Fin np → β) (zero : β) (s : St β nd np)
+    (ps : List (ℕ × (Fin nd → β))) (hinv : Inv gen zero s) (hpre : PassPre gen zero s ps)
+    (hcover : ∀ pos, allBlk s pos ∨ pos ∈ ps.map (·.1)) :
+    ∀ pos, allBlk (syncPass gen zero s ps) pos ∧
+      ∀ l, (syncPass gen zero s ps).parity l pos = gen (synced zero (syncPass gen zero s ps) pos) l := by
+  intro pos
+  have h1 := syncPass_allBlk gen zero ps s pos (hcover pos)
+  exact ⟨h1, syncPass_inv gen zero ps s hinv hpre pos h1⟩
+
+/-- the same from a state reached by any history of operations, interrupted syncs included -/
+theorem resume_after_any_history (gen : (Fin nd → β) → Fin np → β) (zero : β) (hgen : ∀ l, gen (fun _ => zero) l = zero)
+    (s : St β nd np) (hs : C06.Reach gen zero s) (ps : List (ℕ × (Fin nd → β))) (hpre : PassPre gen zero s ps)
+    (hcover : ∀ pos, allBlk s pos ∨ pos ∈ ps.map (·.1)) :
+    ∀ pos, allBlk (syncPass gen zero s ps) pos ∧
+      ∀ l, (syncPass gen zero s ps).parity l pos = gen (synced zero (syncPass gen zero s ps) pos) l :=
+  resume_reaches_clean gen zero s ps (C06.inv_reachable gen zero hgen s hs) hpre hcover
+
+end Resume
+
 end SnapraidVerif.Props.C07
